@@ -2,31 +2,34 @@
 (* The reader automaton of RtrLayout's Need table: see RtrLayout for the layout. *)
 EXTENDS RtrLayout
 \* ---- the reader automaton
-CONSTANTS Entries, Types, Vers, Lens, MaxAvail
+CONSTANTS Entries, Types, Vers, Lens, Avails
 VARIABLES entry, type, ver, len,    \* the case: reader entry point and header fields on the wire
-          avail,                    \* bytes in the stream before it ends
+          avail,                    \* bytes in the stream before it ends (or falls silent)
+          open,                     \* TRUE: after `avail` bytes the stream stays open and silent instead of ending
           got,                      \* bytes consumed so far
           phase,                    \* "hdr" | "body" | "ok" | "err"
           need,                     \* body bytes still wanted
           zero                      \* 0-byte reads seen (end of stream observed)
-vars == <<entry, type, ver, len, avail, got, phase, need, zero>>
-Init == /\ entry \in Entries /\ type \in Types /\ ver \in Vers /\ len \in Lens /\ avail \in 0..MaxAvail
+vars == <<entry, type, ver, len, avail, open, got, phase, need, zero>>
+Init == /\ entry \in Entries /\ type \in Types /\ ver \in Vers /\ len \in Lens /\ avail \in Avails /\ open \in BOOLEAN
+        \* (a silent stream is only interesting when the bytes it delivered decide the case; otherwise the reader waits, rightly)
+        /\ (open => avail >= 8 /\ (Need(entry, type, ver, len) = ErrN \/ avail >= 8 + Need(entry, type, ver, len)))
         /\ got = 0 /\ phase = "hdr" /\ need = 8 /\ zero = 0
-Finish(ph) == phase' = ph /\ UNCHANGED <<entry, type, ver, len, avail, got, need, zero>>
+Finish(ph) == phase' = ph /\ UNCHANGED <<entry, type, ver, len, avail, open, got, need, zero>>
 \* read_exact / read: some bytes arrive (any chunking), or none because the stream has ended
 ReadSome == /\ phase \in {"hdr", "body"} /\ need > 0 /\ got < avail
             /\ \E k \in {1, IF need < avail - got THEN need ELSE avail - got} :
                  /\ got' = got + k /\ need' = need - k
-            /\ UNCHANGED <<entry, type, ver, len, avail, phase, zero>>
-ReadEof  == /\ phase \in {"hdr", "body"} /\ need > 0 /\ got = avail
+            /\ UNCHANGED <<entry, type, ver, len, avail, open, phase, zero>>
+ReadEof  == /\ phase \in {"hdr", "body"} /\ need > 0 /\ got = avail /\ ~open
             /\ zero' = zero + 1 /\ phase' = "err"          \* UnexpectedEof (also in the skip loop)
-            /\ UNCHANGED <<entry, type, ver, len, avail, got, need>>
+            /\ UNCHANGED <<entry, type, ver, len, avail, open, got, need>>
 Dispatch == /\ phase = "hdr" /\ need = 0
             /\ LET n == Need(entry, type, ver, len) IN
                  IF n = ErrN THEN phase' = "err" /\ need' = 0
                  ELSE IF n = 0 THEN phase' = "ok" /\ need' = 0
                  ELSE phase' = "body" /\ need' = n
-            /\ UNCHANGED <<entry, type, ver, len, avail, got, zero>>
+            /\ UNCHANGED <<entry, type, ver, len, avail, open, got, zero>>
 BodyDone == phase = "body" /\ need = 0 /\ Finish("ok")
 Next == ReadSome \/ ReadEof \/ Dispatch \/ BodyDone
 Spec == Init /\ [][Next]_vars /\ WF_vars(Next)
@@ -34,5 +37,9 @@ Bounded == got <= (IF len > 8 THEN len ELSE 8)
 OkMeansComplete == phase = "ok" => (Need(entry, type, ver, len) # ErrN /\ got = 8 + Need(entry, type, ver, len) /\ got <= avail)
 ErrMeansBroken == phase = "err" => (avail < 8 \/ Need(entry, type, ver, len) = ErrN \/ avail < 8 + Need(entry, type, ver, len))
 SkipStopsAtEof == zero <= 1
-Terminates == <>(phase \in {"ok", "err"})
+\* on an open, silent stream the reader waits - legitimately so only for bytes the header announced for this reader
+Waiting == open /\ phase \in {"hdr", "body"} /\ need > 0 /\ got = avail
+Decided == avail >= 8 /\ (Need(entry, type, ver, len) = ErrN \/ avail >= 8 + Need(entry, type, ver, len))
+NeverWaitsBeyondHeader == Decided => ~Waiting
+Terminates == <>(phase \in {"ok", "err"} \/ Waiting)
 =============================================================================
